@@ -29,11 +29,11 @@ CHECKS = {
          "Skips at arbitrary points, concurrent with pulls and each other, followed by further pulls.", "DESIGN §4 C06", TRUST),
  "C07": (True, "sched", "exploration", "property-based testing over generated schedules with a vector-clock happens-before oracle (C11 release/acquire rules from the orderings in the source) and a mutual-exclusion probe",
          "The wrapped iterator is a harness probe; every execution of its next is checked for overlap and for a happens-before edge from the previous execution.", "DESIGN §4 C07", TRUST + " A source scan for synchronisation the shim cannot see switches the happens-before oracle off (reported in the evidence) instead of raising a false race."),
- "C08": (True, "plain", "exploration", "property-based testing with an identity ledger (destructor counting per element)",
+ "C08": (True, "plain+sched", "exploration", "property-based testing with an identity ledger (destructor counting per element)",
          "Consuming kinds with destructor-counting elements (24-byte and zero-sized); histories ending in drop or into_seq_iter at every progress class; each element must be dropped exactly once and have at most one owner.", "DESIGN §4 C08", TRUST_SEQ),
  "C09": (True, "sched", "exploration", "property-based testing over generated schedules with a logical spin/hang detector and thread freezing (adversarial scheduler) for known-size kinds",
          "Hang = reachable state in which every unfinished thread spins on unchanged memory (confirmed); lock-freedom = one thread suspended forever at a generated yield point, the others must finish without any spin episode.", "DESIGN §4 C09", TRUST + " Liveness is decided on the explored schedules only."),
- "C10": (True, "plain", "exploration", "property-based testing, model-based remainder oracle",
+ "C10": (True, "plain+sched", "exploration", "property-based testing, model-based remainder oracle",
          "All kinds, histories incl. overshoot / buffered / skip, then into_seq_iter; remainder compared with the undelivered suffix by value, identity and address.", "DESIGN §4 C10", TRUST_SEQ),
  "C11": (True, "sched", "exploration", "property-based testing: model-based length oracle at every quiescent point (E2) and real-time monotonicity/definitiveness oracle for racing queries (E1)",
          "try_get_len/has_more compared with the cursor model after every sequential prefix; racing queries checked for non-increase and for 'No is definitive'.", "DESIGN §4 C11", TRUST),
@@ -47,12 +47,15 @@ CHECKS = {
          "The quantifier's grid (extreme ranges x chunk sizes x tails) is enumerated completely and judged by the mathematical cursor model in-process and in two separately compiled processes (overflow checks on/off).", "DESIGN §4 C16", TRUST_SEQ),
  "C17": (True, "plain", "exploration", "differential testing of two compilations (debug-assertions+overflow-checks on/off) over generated histories; std ub_checks as precondition oracle",
          "The same generated histories are executed by twin processes built from the same sources; transcripts must be identical; an abort in one twin is a violation.", "DESIGN §4 C17", TRUST_SEQ),
+ "C13": (True, "plain+sched", "exploration", "differential (lock-step) property-based testing: adaptor vs underlying iterator under the same generated operation lists (E2) and the same generated schedules (E1)",
+         "cloned()/copied() over every reference-yielding kind are compared operation by operation with the underlying iterator built over the same data; sequentially and, on the schedule engine, thread by thread under identical schedules.", "DESIGN §4 C13", TRUST),
+ "C14": (True, "plain", "exploration", "generated client programs judged by rustc (negative programs paired with compiling twins) + property-based testing of safe low-level call sequences with an identity ledger",
+         "A finite grammar of programs (constructors x element types x usages, borrow probes, user-defined AtomicIter implementors behind the adaptors) is compiled against the crate; rejection with the expected error class is the oracle. Sequences of safe public calls are searched for two owners of one element.", "DESIGN §4 C14", "Trusted base: rustc's verdict, the program grammar and the reference rule derived from the property text; a finite family of programs, not all safe programs. Two known findings (D9, D10) are reported as KNOWN-FINDING and excluded by construction."),
+ "C19": (True, "plain", "exploration", "model-based property-based testing with several iterators and clones over one collection (one cursor model per iterator, address identity, source ledger)",
+         "Interleaved histories of new-iterator / clone / pull / skip / query operations over slices, Vecs, arrays and ranges.", "DESIGN §4 C19", TRUST_SEQ),
 }
 
 NOT_YET = {
- "C13": "check not built yet (planned: E2 lock-step adaptor vs underlying iterator)",
- "C14": "check not built yet (planned: generated client programs judged by rustc + safe low-level call sequences)",
- "C19": "check not built yet (planned: several iterators over one collection)",
 }
 
 def main():
@@ -89,9 +92,9 @@ def main():
             "add_only": True,
         },
         "engines": [
-            {"name": "sched", "path": "harness/src/sched.rs", "serves_properties": sorted(k for k, v in CHECKS.items() if v[0] and v[1] == "sched"),
+            {"name": "sched", "path": "harness/src/sched.rs", "serves_properties": sorted(k for k, v in CHECKS.items() if v[0] and "sched" in v[1]),
              "kind_free_text": "E1: deterministic coroutine scheduler over the atomic shim (guard on); generated and enumerated schedules, vector clocks, spin/hang detection, freezing, fault injection; also hosts the sequential parts of its properties"},
-            {"name": "plain", "path": "harness/src/seq.rs", "serves_properties": sorted(k for k, v in CHECKS.items() if v[0] and v[1] == "plain"),
+            {"name": "plain", "path": "harness/src/seq.rs", "serves_properties": sorted(k for k, v in CHECKS.items() if v[0] and "plain" in v[1]),
              "kind_free_text": "E2/E3: sequential lock-step interpreter against the cursor model with identity ledger (guard off: the crate exactly as users compile it)"},
         ],
         "checks": checks,
